@@ -197,6 +197,10 @@ func wsdecodeGen(r *rng, maxops int, w *bufio.Writer) {
 			if r.intn(12) == 0 {
 				n = r.pick(65535, 65536)
 			}
+			if r.intn(5) == 0 {
+				// frames that end within a few bytes of the capacity the write buffer has (512, then what append grows it to)
+				n = r.pick(490, 1130, 1260, 4070) + r.intn(30)
+			}
 			if n < 0 {
 				n = 0
 			}
